@@ -573,7 +573,7 @@ pub fn gen_links(r: &mut crate::util::Rng) -> String {
             let mut i = gen_inst(r, k);
             i.label = format!("svc{}", k);
             i.ty = "_http._tcp.local.".to_string();
-            i.host = format!("peer{}.local.", k);
+            i.host = format!("{}{}.local.", r.pick(&["peer", "Peer", "PEER-Host"]), k);
             // a dual-stack responder: one address per subnet of the topology plus stray ones
             i.addrs = vec![
                 "192.168.1.50".parse().unwrap(),
@@ -604,6 +604,16 @@ pub fn gen_links(r: &mut crate::util::Rng) -> String {
     let deliver = |r: &mut crate::util::Rng, cmds: &mut Vec<String>, t: &[(&str, u32, &str, u8, bool, &str)]| {
         for inst in &insts {
             let recs = recs_of(inst, &long, true);
+            if t.len() > 1 && r.chance(1, 2) {
+                // a multi-homed peer heard piecewise: PTR, SRV and TXT on the first link only, its
+                // address records (by themselves) on every link
+                let l = &t[0];
+                cmds.push(format!("inject 0 {} {} {} 5353 {}", l.1, if l.4 { 1 } else { 0 }, l.5, response(&recs[..1], &recs[1..3])));
+                for l in t {
+                    cmds.push(format!("inject 0 {} {} {} 5353 {}", l.1, if l.4 { 1 } else { 0 }, l.5, response(&recs[3..], &[])));
+                }
+                continue;
+            }
             // on one or several links of the current table
             for l in t {
                 if r.chance(2, 3) {
